@@ -224,8 +224,24 @@ def main():
         finally:
             shutil.rmtree(loc, ignore_errors=True)
 
+    def env_case(case):
+        """resolved environments of a package (by name and per component), for each platform"""
+        out = {}
+        for plat in case["platforms"]:
+            c = conf.ExperimentConfigurationFactory.configurationForExperiment(case["package"], platform=plat)
+            g = graph.WorkflowGraph(configuration=c, platform=c.platform_name, primitive=True)
+            out[plat or "default"] = {
+                "ids": sorted("stage%d.%s" % cid for cid in c.get_flowir_concrete(return_copy=False).get_component_identifiers(False)),
+                "named": {str(n): guarded(lambda: canon(c.environmentWithName(n))) for n in case["names"]},
+                "raw": {str(n): guarded(lambda: canon(c.environmentWithName(n, expand=False))) for n in case["names"]},
+                "nodes": {n: guarded(lambda: canon(g.environmentForNode(n))) for n in case["nodes"]}}
+        return out
+
     dumps = {}
     for case in job["cases"]:
+        if case["kind"] == "envfamily":
+            dumps[case["id"]] = guarded(lambda: env_case(case))
+            continue
         if case["kind"] == "uservars":
             dumps[case["id"]] = uservars_case(case)
         else:
